@@ -594,6 +594,7 @@ def check(ctx):
     ctx.rule("R8", "per-connection state: no constructor keeps a mutable default argument (a list/dict/set display or a constructed object evaluated once at definition) in an instance attribute")
     no_shared_defaults(ctx, repo, "R8")
     shared_class_state(ctx, repo, "R8")
+    shared_module_state(ctx, repo, "R8")
 
     ctx.rule("R10", "the teardown runs to its end in EVERY state: async_reset on the manager model (status sensor, button and radio sensors created the way a connection creates them), started in each member of GeckoSpaState with a spa and a facade present, completes without raising, disconnects both and lands in IDLE - the teardown path renders the state for the status sensor, so a state whose text cannot be produced (an index past a table's end for ERROR_RF_FAULT) aborts spa.disconnect half-way: endpoint open, six tasks alive, and every later reset and the context exit raise again")
     reset_completes_in_every_state(ctx, repo, "R10")
@@ -808,6 +809,46 @@ def no_shared_defaults(ctx, repo, rule):
                    f"{fi.qual}: parameter `{p_.arg}` defaults to `{ast.unparse(d_)}`, evaluated once when the function is defined, and is kept in an instance attribute: every {fi.cls.short} built without it shares that one object "
                    f"(for a connection object: the abandoned connection's queued datagrams are consumed by the next connection's handlers)", loc(fi, d_))
     ctx.floor(rule, "constructors inspected", n_init, 40)
+
+
+def shared_module_state(ctx, repo, rule, only_under=None):
+    """a module-level container that a function fills with objects BUILT FROM ITS CALLER'S DATA under a key that does not
+    include that data is a process-wide cache of per-connection objects: `_DECLARATIONS[module_name] = Cls(struct)` hands
+    every later connection with the same key the first connection's object (bound to the first connection's
+    structure).  A memo whose key determines the value (`_CACHE[text] = compile(text)`) is not that."""
+    n = 0
+    for m in repo.all_mods():
+        if "/driver/packs/" in m.rel or (only_under and only_under not in m.rel):
+            continue
+        names = {}
+        for st in m.tree.body:
+            if isinstance(st, ast.Assign) and len(st.targets) == 1 and isinstance(st.targets[0], ast.Name):
+                v = st.value
+                if isinstance(v, (ast.Dict, ast.List, ast.Set)) or (isinstance(v, ast.Call) and ast.unparse(v.func) in ("dict", "list", "set", "collections.defaultdict", "defaultdict", "collections.OrderedDict", "OrderedDict", "weakref.WeakValueDictionary")):
+                    names[st.targets[0].id] = st
+        n += len(names)
+        if not names:
+            continue
+        for fi in repo.all_functions():
+            if fi.mod is not m:
+                continue
+            a_ = fi.node.args
+            params = {p.arg for p in a_.posonlyargs + a_.args + a_.kwonlyargs} | {"self"}
+            for x in walk_no_nested(fi.node):
+                key = val = None
+                if isinstance(x, ast.Assign) and len(x.targets) == 1 and isinstance(x.targets[0], ast.Subscript) and isinstance(x.targets[0].value, ast.Name) and x.targets[0].value.id in names:
+                    key, val, cont = x.targets[0].slice, x.value, x.targets[0].value.id
+                elif isinstance(x, ast.Call) and isinstance(x.func, ast.Attribute) and isinstance(x.func.value, ast.Name) and x.func.value.id in names and x.func.attr in ("setdefault", "append", "add", "insert") and x.args:
+                    key, val, cont = (x.args[0] if x.func.attr in ("setdefault", "insert") and len(x.args) > 1 else None), x.args[-1], x.func.value.id
+                if val is None or not isinstance(val, ast.Call):
+                    continue
+                key_names = {y.id for y in ast.walk(key) if isinstance(y, ast.Name)} if key is not None else set()
+                foreign = sorted({y.id for arg in list(val.args) + [k.value for k in val.keywords] for y in ast.walk(arg) if isinstance(y, ast.Name) and y.id in params and y.id not in key_names})
+                ctx.ob(rule, f"{fi.qual}::{cont}::keyed-by-what-it-holds", not foreign,
+                       f"{fi.qual} keeps `{ast.unparse(val)[:60]}` in the module-level `{cont}` under a key that does not include {foreign}: the object is built from this caller's {foreign} and handed to every later caller with "
+                       f"the same key - a second connection in the process gets declarations bound to the FIRST connection's structure (its inventory is read from the wrong - after a disconnect: zeroed - block)",
+                       loc(fi, x), sample={"rule": rule, "function": fi.qual, "container": cont})
+    ctx.count(f"{rule}:module-level containers examined", n)
 
 
 def shared_class_state(ctx, repo, rule, only_under=None):
